@@ -19,7 +19,10 @@ EXTENDS JMES, Json, Toks, SequencesExt
 CONSTANTS Emit, Prop
 
 Doc == Obj(<<Mem(<<115>>, Str(<<97,98,99,97,98,99>>)), Mem(<<120>>, Arr([i \in 1..6 |-> JInt(i)])), Mem(<<117>>, Str(<<233, 97, 8364, 98, 128512, 99>>))>>)
-Mags == << <<57,50,50,51,51,55,50,48,51,54,56,53,52,55,55,53,56,48,55>>, <<49,48,48,48,48,48,48,48,48,48,48,48,48,48,48,48,48,48,48>>, <<52,54,49,49,54,56,54,48,49,56,52,50,55,51,56,55,57,48,52>>, <<50,49,52,55,52,56,51,54,52,56>>, <<49,48,48,48,48,48,48>> >>
+\* 64-bit limits, and the boundaries of every narrower integer width (an
+\* index or count stored in a small field must not wrap)
+Mags == << <<57,50,50,51,51,55,50,48,51,54,56,53,52,55,55,53,56,48,55>>, <<49,48,48,48,48,48,48,48,48,48,48,48,48,48,48,48,48,48,48>>, <<52,54,49,49,54,56,54,48,49,56,52,50,55,51,56,55,57,48,52>>, <<50,49,52,55,52,56,51,54,52,56>>, <<49,48,48,48,48,48,48>>,
+           <<49,50,55>>, <<49,50,56>>, <<50,53,53>>, <<50,53,54>>, <<51,50,55,54,55>>, <<51,50,55,54,56>>, <<54,53,53,51,53>>, <<54,53,53,51,54>>, <<50,49,52,55,52,56,51,54,52,55>>, <<52,50,57,52,57,54,55,50,57,53>>, <<52,50,57,52,57,54,55,50,57,54>> >>
 Twin == <<49,48,48,48>>
 Minus(m) == <<45>> \o m
 S == Id(<<115>>)  X == Id(<<120>>)  U == Id(<<117>>)
@@ -33,7 +36,9 @@ ForVar(v, m) == <<
   <<v, LB, IntT(Minus(m)), Colon, RB>>, <<v, LB, Colon, IntT(Minus(m)), RB>>, <<v, LB, Colon, Colon, IntT(Minus(m)), RB>>,
   <<v, LB, IntT(m), Colon, IntT(m), Colon, IntT(m), RB>>, <<v, LB, IntT(Minus(m)), Colon, IntT(m), Colon, IntT(Minus(m)), RB>>,
   <<v, LB, IntT(<<49>>), Colon, IntT(m), Colon, IntT(m), RB>>, <<v, LB, IntT(m), Colon, Colon, IntT(<<45,49>>), RB>>,
-  <<v, LB, IntT(m), RB>>, <<v, LB, IntT(Minus(m)), RB>> >>
+  <<v, LB, IntT(m), RB>>, <<v, LB, IntT(Minus(m)), RB>>,
+  <<v, PipeT, LB, IntT(m), RB>>, <<v, PipeT, LB, IntT(Minus(m)), RB>>, <<LP, v, RP, LB, IntT(m), RB>>,
+  <<v, Dot, LB, LB, IntT(m), RB, Comma, LB, IntT(Minus(m)), Colon, RB, RB>>, <<v, PipeT, LB, IntT(m), Colon, RB>> >>
 ForStr(v, m) == <<
   Fn(<<102,105,110,100,95,102,105,114,115,116>>, <<v, Comma, Raw(<<39,98,39>>), Comma, NumLit(m)>>),
   Fn(<<102,105,110,100,95,102,105,114,115,116>>, <<v, Comma, Raw(<<39,98,39>>), Comma, NumLit(<<48>>), Comma, NumLit(m)>>),
@@ -61,10 +66,16 @@ Families == <<
   [f |-> "pipe",    pre |-> <<>>,     core |-> <<X>>, post |-> <<PipeT, CurT>>],
   [f |-> "mslist",  pre |-> <<LB>>,   core |-> <<X, LB, IntT(<<48>>), RB>>, post |-> <<RB>>],
   [f |-> "neg",     pre |-> <<MinusT, MinusT>>, core |-> <<X, LB, IntT(<<48>>), RB>>, post |-> <<>>],
-  [f |-> "or",      pre |-> <<>>,     core |-> <<X, LB, IntT(<<48>>), RB>>, post |-> <<OrT, X, LB, IntT(<<48>>), RB>>] >>
+  [f |-> "or",      pre |-> <<>>,     core |-> <<X, LB, IntT(<<48>>), RB>>, post |-> <<OrT, X, LB, IntT(<<48>>), RB>>],
+  \* flat repetitions: the text grows, the syntactic nesting does not
+  [f |-> "addneg",  pre |-> <<>>,     core |-> <<X, LB, IntT(<<48>>), RB>>, post |-> <<OrT, MinusT, X, LB, IntT(<<48>>), RB>>],
+  [f |-> "ornot",   pre |-> <<>>,     core |-> <<X, LB, IntT(<<48>>), RB>>, post |-> <<OrT, NotT, NotT, X, LB, IntT(<<48>>), RB>>],
+  [f |-> "orparen", pre |-> <<>>,     core |-> <<X, LB, IntT(<<48>>), RB>>, post |-> <<OrT, LP, X, LB, IntT(<<48>>), RB, RP>>],
+  [f |-> "orlist",  pre |-> <<>>,     core |-> <<X, LB, IntT(<<48>>), RB>>, post |-> <<OrT, LB, X, RB, LB, IntT(<<48>>), RB, LB, IntT(<<48>>), RB>>] >>
 FamText(fm, n) == Rep(fm.pre, n) \o fm.core \o Rep(fm.post, n)
 \* families whose meaning does not depend on the depth (for n >= 1)
-Stable == {"paren", "not", "pipe", "neg", "or"}
+Stable == {"paren", "not", "pipe", "neg", "or", "addneg", "ornot", "orparen", "orlist"}
+FlatFam == {"or", "addneg", "ornot", "orparen", "orlist", "pipe", "index", "flatten"}
 
 Check == idx > 0 =>
   LET m   == Mags[bucket]
@@ -77,7 +88,7 @@ Check == idx > 0 =>
                 multi |-> { [family |-> Families[i].f,
                              pre |-> Render(Families[i].pre), core |-> Render(Families[i].core), post |-> Render(Families[i].post),
                              adm |-> Admissible(FamText(Families[i], 3), Doc),
-                             stable |-> Families[i].f \in Stable] : i \in 1..Len(Families) }]
+                             stable |-> Families[i].f \in Stable, flat |-> Families[i].f \in FlatFam] : i \in 1..Len(Families) }]
   IN /\ Emit => PrintT("CASE " \o ToJson(case))
      /\ (Emit /\ bucket = 1) => PrintT("CASE " \o ToJson(scale))
      \* magnitude independence in the specification: once beyond every length
